@@ -34,6 +34,7 @@ func runC06(p *core.Prog, r *core.Report) {
 	cacheKeyRule(p, r, "C06.R5", regCacheCalls(p))
 	c06R6(p, r)
 	staleIndexRule(p, r, "C06.R7")
+	c06R8(p, r)
 }
 
 // lockProblemsToReport turns the problems of a lock analysis into violations of rule.
@@ -455,6 +456,7 @@ func c06R3(p *core.Prog, r *core.Report) {
 		for _, ds := range digestSrc {
 			// digest string originates from GetDescriptor() of some manifest value
 			var recv ssa.Value
+			other := ""
 			for _, o := range core.Origins(ds, core.SliceOpts{FieldsThrough: true, Through: func(c *ssa.Call) []int {
 				cal := core.Callee(c)
 				if cal != nil && cal.Name() == "String" {
@@ -464,7 +466,14 @@ func c06R3(p *core.Prog, r *core.Report) {
 			}}) {
 				if o.Kind == core.OCall && o.Callee() != nil && o.Callee().Name() == "GetDescriptor" {
 					recv = core.CallArg(o.Call, 0)
+				} else {
+					other = o.Describe()
 				}
+			}
+			if recv != nil && other != "" {
+				ok = false
+				detail = "the digest that is deleted can also come from " + other + ": only the digest of the placeholder built in this call may be deleted (a digest read back from the registry can be that of a live image pushed in between, and deleting it removes every tag that shares it)"
+				continue
 			}
 			if recv == nil {
 				ok = false
@@ -802,5 +811,110 @@ func c06R6(p *core.Prog, r *core.Report) {
 	}
 	if n == 0 {
 		r.Undecided(rule, "scheme/ocidir", "ref.name lookups", "", "no comparison of the ref.name annotation found in the layout scheme")
+	}
+}
+
+// c06R8: an index entry is removed only for the tag (or digest) that was asked for. The comparison
+// that decides a removal looks at the entry's ref.name annotation itself, not at something computed
+// from it: a parsed or trimmed name matches entries that carry a different tag.
+func c06R8(p *core.Prog, r *core.Report) {
+	const rule = "C06.R8"
+	r.Rule(rule, "layout removals are exact: every removal of an entry from the index (slices.Delete on the manifests of an index in scheme/ocidir) is control-dependent on an equality with the requested tag or digest, and where the requested tag is compared, the other side is the entry's ref.name annotation itself", 2)
+	n := 0
+	for _, fn := range pkgFuncs(p, "scheme/ocidir") {
+		lab := labeler{}
+		for _, c := range core.CallsTo(fn, func(f *types.Func) bool {
+			return f.Pkg() != nil && f.Pkg().Path() == "slices" && strings.HasPrefix(f.Name(), "Delete")
+		}) {
+			call, ok := c.(*ssa.Call)
+			if !ok || len(call.Call.Args) == 0 {
+				continue
+			}
+			sl, ok := call.Call.Args[0].Type().Underlying().(*types.Slice)
+			if !ok || !core.IsModNamed(sl.Elem(), "types/descriptor", "Descriptor") {
+				continue
+			}
+			n++
+			label := lab.next("index entry removed")
+			decided, bad := false, ""
+			// the comparisons that decide the removal: the branch conditions it depends on (looked at
+			// through predicate closures and helpers), or the body of the predicate given to DeleteFunc
+			var cmps []*ssa.BinOp
+			var expand func(v ssa.Value, d int)
+			inFunc := func(f *ssa.Function) {
+				for _, g := range core.WithAnon(f) {
+					for _, b := range g.Blocks {
+						for _, in := range b.Instrs {
+							if bo, ok := in.(*ssa.BinOp); ok && (bo.Op == token.EQL || bo.Op == token.NEQ) {
+								cmps = append(cmps, bo)
+							}
+						}
+					}
+				}
+			}
+			expand = func(v ssa.Value, d int) {
+				if d > 4 {
+					return
+				}
+				v, _ = core.StripNot(v, true)
+				switch x := v.(type) {
+				case *ssa.BinOp:
+					if x.Op == token.EQL || x.Op == token.NEQ {
+						cmps = append(cmps, x)
+					}
+				case *ssa.Phi:
+					for _, e := range x.Edges {
+						expand(e, d+1)
+					}
+				case *ssa.Call:
+					if g := core.CalleeFn(x); g != nil && p.InModule(g) && len(g.Blocks) > 0 {
+						inFunc(g)
+					} else {
+						for _, h := range hookFuncs(p, x.Call.Value, 0) {
+							inFunc(h)
+						}
+					}
+				}
+			}
+			for _, ifi := range core.ControlDeps(call) {
+				expand(ifi.Cond, 0)
+			}
+			if cal := core.Callee(call); cal != nil && cal.Name() == "DeleteFunc" && len(call.Call.Args) > 1 {
+				for _, h := range hookFuncs(p, call.Call.Args[1], 0) {
+					inFunc(h)
+				}
+			}
+			for _, bo := range cmps {
+				for _, side := range [][2]ssa.Value{{bo.X, bo.Y}, {bo.Y, bo.X}} {
+					tag, other := side[0], side[1]
+					if _, isConst := other.(*ssa.Const); isConst {
+						continue
+					}
+					if isDigestType(tag.Type()) || dependsOnField(tag, modPath("types/ref"), "Ref", "Digest") {
+						decided = true
+						continue
+					}
+					if !isTagValue(tag) || refNameLookup(tag, map[ssa.Value]bool{}) {
+						continue
+					}
+					if refNameLookup(other, map[ssa.Value]bool{}) {
+						decided = true
+					} else if !isTagValue(other) {
+						bad = p.Pos(bo.Pos())
+					}
+				}
+			}
+			switch {
+			case bad != "":
+				r.Violated(rule, p.FuncName(fn), label, p.Pos(call.Pos()), "the removal depends on the comparison at "+bad+" of the requested tag with a value that is not the entry's ref.name annotation itself (a parsed, trimmed or defaulted name): entries that carry another tag can match and are removed with it")
+			case !decided:
+				r.Violated(rule, p.FuncName(fn), label, p.Pos(call.Pos()), "the removal is not control-dependent on an equality with the requested tag or digest")
+			default:
+				r.Held(rule, p.FuncName(fn), label, p.Pos(call.Pos()), "removed only under an exact comparison with the requested tag or digest")
+			}
+		}
+	}
+	if n == 0 {
+		r.MissingAnchor(rule, "removals of index entries in scheme/ocidir")
 	}
 }
